@@ -114,9 +114,11 @@ extern int mpt_stream_sync(MPT_STRUCT(stream) *srm, size_t idlen, const MPT_STRU
 		}
 		/* handle message (and deregister handler) */
 		if ((mc = mpt_command_find(cmd, len, id))) {
-			ret = mc->cmd(mc->arg, &msg);
+			int (*rcmd)(void *, void *) = mc->cmd;
+			void *rarg = mc->arg;
+			/* release first: the command may register new requests */
 			mc->cmd = 0;
-			--count;
+			ret = rcmd(rarg, &msg);
 		}
 		/* find fallback command */
 		else if ((mc = mpt_command_find(cmd, len, 0))) {
@@ -124,6 +126,12 @@ extern int mpt_stream_sync(MPT_STRUCT(stream) *srm, size_t idlen, const MPT_STRU
 		}
 		else {
 			ret = 0;
+		}
+		/* commands may have been added (array moved or grown): look at the array again */
+		cmd = (void *) (arr->_buf + 1);
+		len = arr->_buf->_used / sizeof(*cmd);
+		for (count = pos = 0; pos < len; ++pos) {
+			if (cmd[pos].cmd) ++count;
 		}
 		/* consume processed message */
 		srm->_rd._state.data.pos += srm->_rd._state.data.msg;
